@@ -38,7 +38,9 @@ def enabled(run, tag):
         evs.append("commit")
     reqs = sorted((r for r in run.client.reqs.values() if not r.done), key=lambda r: r.k)
     for r in reqs:
-        if r.kind == "commit":
+        if r.kind == "commit" and r.cancelled:
+            evs += ["commitDone %d ok" % r.k, "commitDone %d err kafka:%d" % (r.k, tag)]
+        elif r.kind == "commit":
             evs += ["commitDone %d ok" % r.k, "commitDone %d err kafka:%d" % (r.k, tag), "commitDone %d err groupFatal:%d" % (r.k, tag)]
         elif r.cancelled:
             name = {"fetch": "fetchDone", "offsets": "offsetDone", "offsetFetch": "offsetFetchDone"}[r.kind]
